@@ -1,29 +1,24 @@
 (* Properties_C04.v -- property C04: Timers fire exactly once, never early, and the loop never oversleeps.  Statements only.
    Every theorem quantifies over ALL well-formed scenarios: all handler scripts, all kernel behaviours the scenario
-   language can express, all four poll methods, all fault sets, any wait limit.
-   STATUS: the full statement of this property on the core model is `mon_C04 (run_scenario sc) = true /\ no_code [102] ...`
-   (see Properties_C04.v.draft); the theorems below are the monitor clauses already proved (named _partial);
-   the remaining clauses (401 403 404 405) are checked on every implementation AND model trace by the extracted monitor
-   while their proofs are being completed. *)
-From Coq Require Import List ZArith Bool.
-From Ivv Require Import Core.Kernel Core.CoreTypes Core.CoreFd Core.CoreModel Core.Monitors Core.CoreSpec
-  Core.CoreRel Core.CoreCodes Base.LeafLink.
+   language can express (conditions changed at any point, ready order rotations, external posts), all four poll
+   methods, all fault sets (EINTR at any wait / epoll_ctl, missing system calls), any wait limit. *)
+From Coq Require Import List ZArith Bool Lia.
+From Ivv Require Import Core.Kernel Core.CoreTypes Core.CoreFd Core.CoreModel Core.Monitors Core.GuardMon Core.CoreSpec
+  Core.CoreInv Core.CoreRel Core.CorePhase2Time Core.CoreExamples Base.LeafLink.
 Import ListNotations.
 Local Open Scope Z_scope.
 
-(* at most once per registration (102); the loop clock shown to a timer handler never runs ahead of the true clock
-   (406) and time never runs backwards across a wait (407) *)
-Theorem C04_at_most_once_partial :
-  forall sc, wf_scenario sc -> no_code [102] (mon_fails (run_scenario sc)).
-Proof. intros sc Hwf. eapply no_code_sub; [|exact (codes_C01 sc Hwf)]. simpl; intros c Hc; intuition. Qed.
-Print Assumptions C04_at_most_once_partial.
+Definition no_code (codes : list Z) (tr : list Z) : Prop := forall c, In c tr -> ~ In c codes.
 
-Theorem C04_clock_partial :
-  forall sc, wf_scenario sc -> no_code [406; 407] (mon_fails (run_scenario sc)).
-Proof. intros sc Hwf. eapply no_code_sub; [|exact (codes_handlers sc Hwf)]. simpl; intros c Hc; intuition. Qed.
-Print Assumptions C04_clock_partial.
+(* never early (401), loop clock <= true clock (406), no timer due when the loop sleeps (403), no oversleep beyond the
+   earliest expiry rounded up to a millisecond on the ms back ends (404), never blocked for ever with a timer
+   registered (405), clock monotone across waits (407); at most once per registration is clause 102 *)
+Theorem C04_timers :
+  forall sc, wf_scenario sc -> mon_C04 (run_scenario sc) = true /\ no_code [102] (mon_fails (run_scenario sc)).
+Proof. exact core_mon_C04. Qed.
+Print Assumptions C04_timers.
 
-(* the time arithmetic of the model is that of the C functions (re-translated from the source on every run) *)
+(* the time arithmetic is that of the translated C functions *)
 Theorem C04_to_msec_is_the_code :
   forall ts tn as_ an, ok_nsec tn -> ok_nsec an -> Ivv.Gen.Leaf.to_msec ts tn 1 as_ an = msec_of_rel (if ns ts tn <? ns as_ an then ns as_ an - ns ts tn else 0).
 Proof. exact leaf_to_msec. Qed.
@@ -34,13 +29,17 @@ Theorem C04_to_msec_rounds_up :
 Proof. exact msec_of_rel_bounds. Qed.
 Print Assumptions C04_to_msec_rounds_up.
 
-Theorem C04_timespec_gt_is_the_code :
-  forall as_ an bs bn, ok_nsec an -> ok_nsec bn -> Ivv.Gen.Leaf.timespec_gt as_ an bs bn = if ns bs bn <? ns as_ an then 1 else 0.
-Proof. exact leaf_timespec_gt. Qed.
-Print Assumptions C04_timespec_gt_is_the_code.
-
 Theorem C04_timespec_cmp_is_the_code :
   forall as_ an bs bn, ok_nsec an -> ok_nsec bn -> Ivv.Gen.Leaf.timespec_cmp 1 as_ an bs bn = abs_cmp (Some (ns as_ an)) (ns bs bn).
 Proof. exact leaf_timespec_cmp. Qed.
 Print Assumptions C04_timespec_cmp_is_the_code.
 
+(* non-vacuity: a well-formed run on every poll method in which a timer registered 5 ms ahead fires exactly at its
+   expiry (loop clock 1005000000 = registration time + 5 ms) after a wait that slept until then *)
+Example C04_nonvacuous :
+  forall be, In be [0; 1; 2; 3] ->
+    wf_scenario (ex_all be) /\ In (TCallTimer 0 1005000000) (run_scenario (ex_all be)) /\ mon_fails (run_scenario (ex_all be)) = [].
+Proof.
+  intros be H. split; [apply ex_all_wf; cbn [In] in H; intuition lia|].
+  pose proof (ex_all_runs be H) as R. cbv zeta in R. tauto.
+Qed.
